@@ -2840,7 +2840,9 @@ func (r *Runtime) ForOf(iterable Value, step func(curValue Value) (continueItera
 				continueIteration = step(value)
 			})
 			if ex != nil {
-				iter.returnIter()
+				// IteratorClose with a throw completion: the original exception wins
+				// even if the iterator's return() throws (same as the for-of statement)
+				_ = r.vm.try(iter.returnIter)
 				panic(ex)
 			}
 			if !continueIteration {
